@@ -9,6 +9,7 @@ import difflib
 
 from ..diff_format import SequenceDiffBuilder, MappingDiffBuilder, validate_diff
 from ..diff_utils import count_consumed_symbols
+from ..utils import defaultdict2
 
 from .config import DiffConfig
 from .sequences import diff_strings_linewise, diff_sequence
@@ -18,7 +19,7 @@ __all__ = ["diff"]
 
 
 def default_predicates():
-    return defaultdict(lambda: (operator.__eq__,))
+    return defaultdict2(lambda: (operator.__eq__,), {})
 
 
 def default_differs():
